@@ -261,11 +261,11 @@ pub fn run(args: Args) -> ! {
         }
     }
     let w = workers();
-    let run = run_tape("C12.product", &prop_product, 16, args.tier.pick(150_000, 6_000_000), args.seed, w);
+    let run = run_tape("C12.product", &prop_product, 16, args.tier.pick(500_000, 10_000_000), args.seed, w);
     finish_run(&mut rep, "product", run);
-    let run = run_tape("C12.mutants", &prop_mutant, 32, args.tier.pick(200_000, 10_000_000), args.seed, w);
+    let run = run_tape("C12.mutants", &prop_mutant, 32, args.tier.pick(600_000, 20_000_000), args.seed, w);
     finish_run(&mut rep, "mutants", run);
-    let run = run_tape("C12.values", &prop_value, 32, args.tier.pick(100_000, 4_000_000), args.seed, w);
+    let run = run_tape("C12.values", &prop_value, 32, args.tier.pick(300_000, 8_000_000), args.seed, w);
     finish_run(&mut rep, "values", run);
     if args.tier == Tier::Thorough && rep.violations.is_empty() {
         let seeds: Vec<Vec<u8>> = ["1979-05-27T07:32:00Z", "1979-05-27 07:32:00.999999-07:00", "1979-05-27T00:32:00", "1979-05-27", "07:32:00", "00:32:00.5", "2000-02-29t23:59:60.123456789z"].iter().map(|s| s.as_bytes().to_vec()).collect();
